@@ -108,6 +108,12 @@ package keeper
 //@   requires n >= 1
 //@   ensures keptOnMain(x, ptrs, shr, typ, o, n) == keptOnMain(x, ptrs, shr, typ, o, n - 1) + (typ[ptrs[o + n - 1]] == "MAIN" ? truncInt(x * shr[ptrs[o + n - 1]]) : 0)
 //@   prop C04
+//@ // no named share points to the main account: nothing is kept there
+//@ lemma keptOnMainZero(x int, ptrs [int]int, shr [int]int, typ [int]str, o int, n int)
+//@   induction n
+//@   requires n >= 0 && !mainAmong(ptrs, typ, o, n)
+//@   ensures keptOnMain(x, ptrs, shr, typ, o, n) == 0
+//@   prop C03
 //@ pred keptOf(x, dst, n) = keptOnMain(x, elemRow(dst.Shares), heapOf("types.DestinationShare", "Share"), heapOf("types.DestinationShare", "Destination.Type"), off(dst.Shares), n)
 //@ pred keptStepOf(x, dst, n) = keptOnMainStep(x, elemRow(dst.Shares), heapOf("types.DestinationShare", "Share"), heapOf("types.DestinationShare", "Destination.Type"), off(dst.Shares), n)
 //@ pred wsumOf(x, dst, n) = wsumShares(x, elemRow(dst.Shares), heapOf("types.DestinationShare", "Share"), off(dst.Shares), n)
